@@ -4,7 +4,7 @@ use std::sync::Arc;
 
 use super::*;
 use crate::array::DataChunk;
-use crate::catalog::{ColumnRefId, TableRefId};
+use crate::catalog::{ColumnRefId, TableRefId, find_sort_key_id};
 use crate::storage::{
     KeyRange, ScanOptions, Storage, StorageColumnRef, Table, Transaction, TxnIterator,
 };
@@ -36,12 +36,25 @@ impl<S: Storage> TableScanExecutor<S> {
             col_idx.push(StorageColumnRef::RowHandler);
         }
 
+        // The planner is told that a table of the disk engine comes back in primary key order
+        // (`analyze_order`). Each RowSet is sorted, but several of them are only returned in
+        // key order by a sorted (merging) scan, which needs every key column in the output.
+        let is_sorted = self.storage.as_disk().is_some() && {
+            let sort_keys = find_sort_key_id(&table.columns()?);
+            !sort_keys.is_empty()
+                && sort_keys
+                    .iter()
+                    .all(|k| col_idx.contains(&StorageColumnRef::Idx(*k as u32)))
+        };
+
         let txn = table.read().await?;
 
         let mut it = txn
             .scan(
                 &col_idx,
-                ScanOptions::default().with_filter_opt(self.filter),
+                ScanOptions::default()
+                    .with_filter_opt(self.filter)
+                    .with_sorted(is_sorted),
             )
             .await?;
 
